@@ -6,12 +6,18 @@
 (*                                                                             *)
 (* Lines (segments start with "reset"; R of the whole file comes from env      *)
 (* ZR_R):                                                                      *)
-(*   reset                      new scenario                                   *)
-(*   init   rec                 the initial record (must be a valid record)    *)
+(*   reset  R P alive           new scenario (factor, number of partitions)    *)
+(*   init   p rec               initial record of partition p (must be valid)  *)
 (*   down/up/unsync/sync n      scripted environment (what the stubs answer)   *)
-(*   members m                  raft membership reported by answering nodes    *)
-(*   call   op src n err        a coordinator entry point was called (info)    *)
-(*   update ok oldgen rec       one UpdateNamespacePartReplicaInfo call with   *)
+(*   members p m                raft membership of p reported by answering     *)
+(*                              nodes                                          *)
+(*   setr   r                   the replication factor was changed to r        *)
+(*   begin/end op               a check or balance round runs (its removals    *)
+(*                              of live nodes must be removals of a surplus)   *)
+(*   placein old                the previous layout handed to the placement    *)
+(*                              function (in-sync list of every partition)     *)
+(*   call   op src n p w err    a coordinator entry point was called (info)    *)
+(*   update p ok oldgen rec     one UpdateNamespacePartReplicaInfo call with   *)
 (*                              the complete record the coordinator passed     *)
 (*   panic                      a Go panic inside the coordinator              *)
 (* Every successful update must (1) satisfy the record clauses of C18 and (2)  *)
@@ -21,8 +27,8 @@
 (* rest of the segment is skipped.                                             *)
 EXTENDS ZCoord, Json, IOUtils, TLC
 
-VARIABLES l, skip
-tvars == <<meta, snap, alive, unsynced, members, usedIDs, bad, calls, l, skip>>
+VARIABLES l, skip, ctxop
+tvars == <<metas, views, alive, unsynced, mems, used, bad, calls, rf, l, skip, ctxop>>
 
 Trace == ndJsonDeserialize(IOEnv.ZR_TRACE)
 E == Trace[l]
@@ -30,6 +36,8 @@ E == Trace[l]
 TraceR == CASE IOEnv.ZR_R = "1" -> 1 [] IOEnv.ZR_R = "2" -> 2 [] IOEnv.ZR_R = "3" -> 3
             [] IOEnv.ZR_R = "4" -> 4 [] IOEnv.ZR_R = "5" -> 5
 TraceNodes == 1..64
+TraceParts == 0..7
+TraceRSet == {TraceR}
 
 PairFn(ps) == [n \in {p[1] : p \in Range(ps)} |-> (CHOOSE p \in Range(ps) : p[1] = n)[2]]
 RecOf(j) == [nodes |-> j.nodes, ids |-> PairFn(j.ids), rem |-> {p[1] : p \in Range(j.rem)},
@@ -40,10 +48,12 @@ PairsUnique(ps) == \A i, k \in DOMAIN ps : i # k => ps[i][1] # ps[k][1]
 
 Blank == [nodes |-> <<>>, ids |-> <<>>, rem |-> {}, maxid |-> 0, epoch |-> 0]
 NoEpoch(m) == [m EXCEPT !.epoch = 0]
+InSyncList(m) == SelectSeq(m.nodes, LAMBDA x : x \notin m.rem)
 
-\* names of everything wrong with the step meta -> nw in the current environment
-StepBroken(nw) ==
-  LET a == NoEpoch(nw)
+\* names of everything wrong with the step metas[p] -> nw in the current environment
+StepBroken(p, nw) ==
+  LET meta == metas[p]
+      a == NoEpoch(nw)
       marks == {n \in NodeSet(meta) : a = NoEpoch(MarkOf(meta, n))}
       fins  == {n \in meta.rem : a = NoEpoch(FinishOf(meta, n))}
       \* an addition, whatever id it was given
@@ -51,55 +61,74 @@ StepBroken(nw) ==
                                    /\ n \in DOMAIN nw.ids
                                    /\ \A x \in DOMAIN meta.ids : x # n => (x \in DOMAIN nw.ids /\ nw.ids[x] = meta.ids[x])}
   IN IF nw.epoch <= meta.epoch THEN {"EpochNotAdvanced"}
-     ELSE IF marks # {} THEN UNION {MarkBroken(meta, n, Env) : n \in marks}
-     ELSE IF fins # {} THEN UNION {FinishBroken(meta, n, Env) : n \in fins}
+     ELSE IF marks # {} THEN
+          UNION {MarkBroken(meta, n, EnvP(p))
+                 \cup (IF ctxop \in {"check", "balance"}
+                       THEN If(n \in alive => Cardinality(ISR(meta)) > rf, "Round:RemovalReducesInSyncBelowFactor")
+                       ELSE {}) : n \in marks}
+     ELSE IF fins # {} THEN UNION {FinishBroken(meta, n, EnvP(p)) : n \in fins}
      ELSE IF adds # {} THEN
-          UNION {AddBroken(meta, n, Env)
+          UNION {AddBroken(meta, n, EnvP(p))
                  \cup If(nw.ids[n] = meta.maxid + 1 /\ nw.maxid = meta.maxid + 1, "Add:IdNotMaxPlusOne")
-                 \cup If(nw.ids[n] \notin usedIDs, "C18:IdReused") : n \in adds}
+                 \cup If(nw.ids[n] \notin used[p], "C18:IdReused") : n \in adds}
      ELSE {"NotOneMarkAddOrFinish"}
 
-UpdateBroken(j) ==
+UpdateBroken(p, j) ==
   IF ~(PairsUnique(j.ids) /\ PairsUnique(j.rem)) THEN {"C18:IdsMalformed"}
   ELSE LET nw == RecOf(j) IN
        RecordBroken(nw) \cup If(RemIdsOK(j), "RemovalNamesWrongReplicaId")
-       \cup (IF RecordBroken(nw) = {} THEN StepBroken(nw) ELSE {})
+       \cup (IF RecordBroken(nw) = {} THEN StepBroken(p, nw) ELSE {})
 
-TInit == /\ l = 1 /\ skip = FALSE
-         /\ meta = Blank /\ snap = Blank /\ alive = {} /\ unsynced = {} /\ members = <<>>
-         /\ usedIDs = {} /\ bad = {} /\ calls = 0
+\* the previous layout handed to the placement function: the in-sync list of every partition,
+\* no node twice in a list
+PlaceInBroken(old) ==
+  UNION {If(old[i] = InSyncList(metas[i - 1]), "PlacementInput:NotTheInSyncLists")
+         \cup If(Cardinality(Range(old[i])) = Len(old[i]), "PlacementInput:NodeTwice") : i \in DOMAIN old}
 
-Keep == UNCHANGED <<meta, alive, unsynced, members, usedIDs>>
+TInit == /\ l = 1 /\ skip = FALSE /\ ctxop = ""
+         /\ metas = [p \in TraceParts |-> Blank] /\ views = <<>> /\ alive = {} /\ unsynced = {}
+         /\ mems = [p \in TraceParts |-> <<>>]
+         /\ used = [p \in TraceParts |-> {}] /\ bad = {} /\ calls = 0 /\ rf = 1
+
+Keep == UNCHANGED <<metas, alive, unsynced, mems, used, rf, ctxop>>
 Reject(names) == /\ PrintT(<<"MISMATCH", l, names>>) /\ skip' = TRUE /\ Keep
 
 TNext ==
   /\ l <= Len(Trace)
   /\ l' = l + 1
-  /\ UNCHANGED <<snap, bad, calls>>
+  /\ UNCHANGED <<views, bad, calls>>
   /\ IF E.ev = "reset" THEN
-          /\ meta' = Blank /\ alive' = Range(E.alive) /\ unsynced' = {} /\ members' = <<>>
-          /\ usedIDs' = {} /\ skip' = FALSE
+          /\ metas' = [p \in TraceParts |-> Blank] /\ alive' = Range(E.alive) /\ unsynced' = {}
+          /\ mems' = [p \in TraceParts |-> <<>>] /\ used' = [p \in TraceParts |-> {}]
+          /\ rf' = E.R /\ ctxop' = "" /\ skip' = FALSE
      ELSE IF skip THEN Keep /\ UNCHANGED skip
      ELSE CASE E.ev = "init" ->
                  LET nw == RecOf(E.rec) IN
                  IF PairsUnique(E.rec.ids) /\ RecordBroken(nw) = {} /\ nw.rem = {}
-                 THEN /\ meta' = nw /\ usedIDs' = {nw.ids[x] : x \in DOMAIN nw.ids}
-                      /\ members' = nw.ids
-                      /\ UNCHANGED <<alive, unsynced, skip>>
+                 THEN /\ metas' = [metas EXCEPT ![E.p] = nw]
+                      /\ used' = [used EXCEPT ![E.p] = {nw.ids[x] : x \in DOMAIN nw.ids}]
+                      /\ mems' = [mems EXCEPT ![E.p] = nw.ids]
+                      /\ UNCHANGED <<alive, unsynced, rf, ctxop, skip>>
                  ELSE Reject({"InitialRecordInvalid"})
             [] E.ev = "down"    -> alive' = alive \ {E.n} /\ unsynced' = unsynced \ {E.n}
-                                   /\ UNCHANGED <<meta, members, usedIDs, skip>>
-            [] E.ev = "up"      -> alive' = alive \cup {E.n} /\ UNCHANGED <<meta, unsynced, members, usedIDs, skip>>
-            [] E.ev = "unsync"  -> unsynced' = unsynced \cup {E.n} /\ UNCHANGED <<meta, alive, members, usedIDs, skip>>
-            [] E.ev = "sync"    -> unsynced' = unsynced \ {E.n} /\ UNCHANGED <<meta, alive, members, usedIDs, skip>>
-            [] E.ev = "members" -> members' = PairFn(E.m) /\ UNCHANGED <<meta, alive, unsynced, usedIDs, skip>>
+                                   /\ UNCHANGED <<metas, mems, used, rf, ctxop, skip>>
+            [] E.ev = "up"      -> alive' = alive \cup {E.n} /\ UNCHANGED <<metas, unsynced, mems, used, rf, ctxop, skip>>
+            [] E.ev = "unsync"  -> unsynced' = unsynced \cup {E.n} /\ UNCHANGED <<metas, alive, mems, used, rf, ctxop, skip>>
+            [] E.ev = "sync"    -> unsynced' = unsynced \ {E.n} /\ UNCHANGED <<metas, alive, mems, used, rf, ctxop, skip>>
+            [] E.ev = "members" -> mems' = [mems EXCEPT ![E.p] = PairFn(E.m)]
+                                   /\ UNCHANGED <<metas, alive, unsynced, used, rf, ctxop, skip>>
+            [] E.ev = "setr"    -> rf' = E.r /\ UNCHANGED <<metas, alive, unsynced, mems, used, ctxop, skip>>
+            [] E.ev = "begin"   -> ctxop' = E.op /\ UNCHANGED <<metas, alive, unsynced, mems, used, rf, skip>>
+            [] E.ev = "end"     -> ctxop' = "" /\ UNCHANGED <<metas, alive, unsynced, mems, used, rf, skip>>
             [] E.ev = "call"    -> Keep /\ UNCHANGED skip
+            [] E.ev = "placein" -> LET b == PlaceInBroken(E.old) IN
+                                   IF b = {} THEN Keep /\ UNCHANGED skip ELSE Reject(b)
             [] E.ev = "update"  ->
                  IF ~E.ok THEN Keep /\ UNCHANGED skip          \* CASFail: nothing was written
-                 ELSE LET b == UpdateBroken(E.rec) IN
-                      IF b = {} THEN /\ meta' = RecOf(E.rec)
-                                     /\ usedIDs' = usedIDs \cup {RecOf(E.rec).ids[x] : x \in DOMAIN RecOf(E.rec).ids}
-                                     /\ UNCHANGED <<alive, unsynced, members, skip>>
+                 ELSE LET b == UpdateBroken(E.p, E.rec) IN
+                      IF b = {} THEN /\ metas' = [metas EXCEPT ![E.p] = RecOf(E.rec)]
+                                     /\ used' = [used EXCEPT ![E.p] = @ \cup {RecOf(E.rec).ids[x] : x \in DOMAIN RecOf(E.rec).ids}]
+                                     /\ UNCHANGED <<alive, unsynced, mems, rf, ctxop, skip>>
                       ELSE Reject(b)
             [] OTHER -> Reject({"NoSuchAction:" \o E.ev})
 
